@@ -7,6 +7,7 @@ package main
 import (
 	"bytes"
 	"context"
+	"errors"
 	"fmt"
 	"math"
 	"os"
@@ -228,7 +229,53 @@ type hist struct {
 	tsRace        bool
 	// etcdAll: the whole range through the etcd Range API with every limit 0..n+1 at every read revision
 	etcdAll bool
+	// iterFault: after phase 1 the engine iterator fails once per read (iterFaultKV) — the limited List (rangeWithLimit:
+	// worker.run without retry) with the fault at store.Iter and at every Next position, two unlimited Lists (retried)
+	iterFault bool
 }
+
+// iterFaultKV: a KvStorage whose next iterator fails once. at < 0: off; at = 0: the next Iter call returns an error;
+// at = n > 0: the n-th Next of the next iterator returns an error (not io.EOF). One shot: arming concerns only the first
+// iterator opened afterwards; every other call goes to the engine untouched (an unarmed Iter returns the engine's own iterator).
+type iterFaultKV struct {
+	storage.KvStorage
+	at    int64
+	fired int64
+}
+
+var errIterFault = errors.New("verif: injected iterator fault")
+
+func (f *iterFaultKV) Iter(ctx context.Context, start, end []byte, ts, limit uint64) (storage.Iter, error) {
+	at := atomic.SwapInt64(&f.at, -1)
+	if at < 0 {
+		return f.KvStorage.Iter(ctx, start, end, ts, limit)
+	}
+	if at == 0 {
+		atomic.StoreInt64(&f.fired, 1)
+		return nil, errIterFault
+	}
+	it, err := f.KvStorage.Iter(ctx, start, end, ts, limit)
+	if err != nil {
+		return nil, err
+	}
+	return &faultIter{Iter: it, f: f, at: at}, nil
+}
+
+type faultIter struct {
+	storage.Iter
+	f     *iterFaultKV
+	at, n int64
+}
+
+func (i *faultIter) Next(ctx context.Context) error {
+	i.n++
+	if i.n == i.at {
+		atomic.StoreInt64(&i.f.fired, 1)
+		return errIterFault
+	}
+	return i.Iter.Next(ctx)
+}
+
 
 func genHist(r *lib.Rand) hist {
 	nk := 3 + r.Intn(5)
@@ -565,6 +612,11 @@ func runHist(engine, scratch string, h hist, rr *lib.Rand, kind string, quick, f
 		}
 		kv = w
 	}
+	var ifk *iterFaultKV
+	if h.iterFault {
+		ifk = &iterFaultKV{KvStorage: kv, at: -1}
+		kv = ifk
+	}
 	n := lib.NewRSNode(kv, "c03")
 	defer lib.RSRetire()
 	b := n.B
@@ -735,6 +787,83 @@ func runHist(engine, scratch string, h hist, rr *lib.Rand, kind string, quick, f
 			}
 		}
 	}
+	if h.iterFault {
+		// rangeWithLimit calls worker.run once, without runWithBackoffRetry: an iterator that fails before the receiver has
+		// its limit + 1 results is an ERROR response (Model/ReadRetry.v list_limited_fault, C03_limited_fault) — never the
+		// kvs collected so far, never a `more` computed from them.  The fault is placed at store.Iter (at = 0) and at every
+		// Next position up to past the end of the store; a position the worker never reaches (limit reached, or io.EOF
+		// first) must leave the answer untouched: that response is an ordinary read of the case, judged by model and oracle.
+		lim := read{Kind: "list", A: []byte("/r/"), B: []byte("/r0"), Rev: cur1, Limit: 2}
+		d0, err := lib.Dump(inner)
+		if err != nil {
+			return fail("dump: " + err.Error())
+		}
+		var extra []readOut
+		var extraReads []read
+		nErr, nFree := 0, 0
+		for at := int64(0); at <= int64(len(d0))+2; at++ {
+			atomic.StoreInt64(&ifk.fired, 0)
+			atomic.StoreInt64(&ifk.at, at)
+			resp, lerr := b.List(context.Background(), &proto.RangeRequest{Key: lim.A, End: lim.B, Revision: lim.Rev, Limit: lim.Limit})
+			atomic.StoreInt64(&ifk.at, -1)
+			if atomic.LoadInt64(&ifk.fired) == 1 {
+				if lerr == nil {
+					jsonCase["iter_fault_at"] = at
+					return fail(fmt.Sprintf("limited List (limit %d) whose engine iterator failed (fault position %d: 0 = Iter, n = n-th Next) answered %d kvs, more=%v instead of an error", lim.Limit, at, len(resp.Kvs), resp.More))
+				}
+				nErr++
+				res.outcomes["list-limited-iter-fault-error"]++
+				continue
+			}
+			// not reached: the response as an ordinary read (an error here shows as a mismatch)
+			nFree++
+			res.outcomes["list-limited-iter-fault-unreached"]++
+			var o string
+			k := 0
+			if lerr != nil {
+				o = lib.App("LErr", errClass(lerr))
+			} else {
+				o = lib.App("LResp", lib.N(resp.Header.Revision), coqKvs(resp.Kvs), lib.Bool(resp.More))
+				k = len(resp.Kvs)
+			}
+			extra = append(extra, readOut{coq: lib.App("QList", lib.Bytes(lim.A), lib.Bytes(lim.B), lib.N(lim.Rev), lib.Z(lim.Limit), o), outcome: "list-more", kvs: k})
+			extraReads = append(extraReads, lim)
+		}
+		if nErr < 3 || nFree < 1 {
+			return fail(fmt.Sprintf("iterator-fault scenario degenerate: %d faulted limited Lists, %d with the fault out of reach", nErr, nFree))
+		}
+		// the same limited List again, no fault: the snapshot answer
+		o := doRead(n, lim)
+		res.outcomes[o.outcome]++
+		extra, extraReads = append(extra, o), append(extraReads, lim)
+		// the unlimited List goes through scan -> runWithBackoffRetry: one failed attempt (Iter error; 3rd Next) is retried after
+		// the back-off second and the answer is the fault-free one (C13_retry_list_count)
+		unl := read{Kind: "list", A: []byte("/r/"), B: []byte("/r0"), Rev: cur1, Limit: 0}
+		for _, at := range []int64{0, 3} {
+			atomic.StoreInt64(&ifk.fired, 0)
+			atomic.StoreInt64(&ifk.at, at)
+			o := doRead(n, unl)
+			atomic.StoreInt64(&ifk.at, -1)
+			if atomic.LoadInt64(&ifk.fired) != 1 {
+				return fail("iterator-fault scenario degenerate: the fault of the unlimited List did not fire")
+			}
+			res.outcomes["list-unlimited-iter-fault-retried"]++
+			res.outcomes[o.outcome]++
+			extra, extraReads = append(extra, o), append(extraReads, unl)
+		}
+		// a phase without writes: the reads of phase 1 again (no fault), then the reads above
+		var outs []readOut
+		for _, r := range reads {
+			o := doRead(n, r)
+			res.outcomes[o.outcome]++
+			outs = append(outs, o)
+		}
+		outs = append(outs, extra...)
+		reads = append(reads, extraReads...)
+		if err := snapWith(nil, 0, outs); err != nil {
+			return fail(err.Error())
+		}
+	}
 	// phase 2: more writes and a compaction
 	for i := range h.ops2 {
 		if h.window && h.ops2[i].Prev != 0 { // generated before the window changed the revisions: keep it a plausible guard
@@ -811,6 +940,9 @@ func runHist(engine, scratch string, h hist, rr *lib.Rand, kind string, quick, f
 	if h.tsRace {
 		res.c.Kind += "/ts-race"
 	}
+	if h.iterFault {
+		res.c.Kind += "/iter-fault"
+	}
 	if len(h.borders) > 0 {
 		res.c.Kind += "/partitioned"
 		for _, c := range calls {
@@ -868,6 +1000,10 @@ func corpus() []hist {
 			borders: [][]byte{cd.EncodeObjectKey([]byte("/r/a"), 1), cd.EncodeObjectKey([]byte("/r/ab"), 1)}},
 		// TiKV, one region: a read whose timestamp is late, a write, a read at the new revision (three times)
 		{keys: []string{"/r/a", "/r/b"}, ops1: []lib.RSOp{c("/r/a", x), c("/r/b", x)}, ops2: []lib.RSOp{d("/r/a", 0)}, compact: math.MaxUint64, tsRace: true},
+		// the engine iterator fails once: limited List = error at every reachable fault position, unlimited List retried
+		{keys: []string{"/r/a", "/r/a/b", "/r/ab", "/r/b", "/r/c"},
+			ops1: []lib.RSOp{c("/r/a", x), c("/r/a/b", x), c("/r/ab", x), c("/r/b", x), u("/r/a", []byte("x2"), 101), d("/r/a/b", 0), c("/r/c", x)},
+			ops2: []lib.RSOp{d("/r/a", 0)}, compact: math.MaxUint64, iterFault: true},
 		// delete, compaction above the delete, re-creation
 		{keys: []string{"/r/a", "/r/b"}, ops1: []lib.RSOp{c("/r/a", x), c("/r/b", x), d("/r/a", 101), u("/r/b", []byte("b2"), 102)}, ops2: []lib.RSOp{c("/r/a", []byte("back")), d("/r/b", 0)}, compact: 104},
 	}
